@@ -120,9 +120,9 @@ Section Topo.
   Qed.
 
   (* the layers of the plan *)
-  Lemma bp_topo locals pobjs :
-    topo (pl_graph (build_plan sc locals pobjs)) (map (map p_id) (pl_apply_layers (build_plan sc locals pobjs))) /\
-    rtopo (pl_graph (build_plan sc locals pobjs)) (map (map p_id) (pl_prune_layers (build_plan sc locals pobjs))).
+  Lemma bp_topo known locals pobjs :
+    topo (pl_graph (build_plan sc known locals pobjs)) (map (map p_id) (pl_apply_layers (build_plan sc known locals pobjs))) /\
+    rtopo (pl_graph (build_plan sc known locals pobjs)) (map (map p_id) (pl_prune_layers (build_plan sc known locals pobjs))).
   Proof.
     unfold build_plan. cbv zeta.
     match goal with |- context [kahn ?n ?g ?r] => pose proof (kahn_topo n g r) as KT; destruct (kahn n g r) as [layers cyc] end.
@@ -344,6 +344,8 @@ Section Trav.
       (X = r_tr s \/ exists r ok m sto, apply_req_for (p_id p) r /\ X = IReq r ok m sto :: r_tr s).
   Proof.
     intros [_ Hl]. unfold apply_one. destruct (p_local p) as [l|] eqn:EL; [right|left; reflexivity].
+    destruct (negb (kind_known sc (r_known s) (p_id p))).
+    { eexists _, (r_tr s). split; [reflexivity|left; reflexivity]. }
     pose proof (policy_apply_filter_same sc s (p_id p)) as [_ PR].
     destruct (policy_apply_filter sc s (p_id p)) as [s1 f1]. cbn [fst] in PR.
     destruct (match f1 with FPass => _ | _ => _ end).
@@ -544,14 +546,15 @@ End PlanTasks.
 
 Section PlanTasks2.
   Variable sc : scenario.
+  Variable known : list id.
   Variable locals : list lobj.
   Variable pobjs : list cobj.
-  Notation pl := (build_plan sc locals pobjs).
+  Notation pl := (build_plan sc known locals pobjs).
   Hypothesis DISJ : forall j, In j (apply_ids pl) -> ~ In j (prune_ids pl).
 
   Lemma twf_tasks_of : twf pl [] [] (tasks_of sc pl).
   Proof.
-    unfold tasks_of. destruct (bp_topo sc locals pobjs) as [TA TP].
+    unfold tasks_of. destruct (bp_topo sc known locals pobjs) as [TA TP].
     assert (LAST : forall Da Dp, twf pl Da Dp [TInvSet]) by (intros; exact I).
     assert (PT : forall kw Da, twf pl Da []
                ((if o_prune (sc_opts sc) then match pl_prune pl with [] => [] | _ => prune_tasks sc 0 kw (pl_prune_layers pl) end else [])
@@ -605,8 +608,8 @@ Section RunJ.
     exists Da Dp td, J pl Da Dp td (r_tr (run_state sc c0)).
   Proof.
     intros WFL. unfold run_plan, run_state. cbv zeta.
-    pose proof (inv_list_tr sc (init_state c0)) as T1.
-    destruct (inv_list sc (init_state c0)) as [s1 r1]. cbn [fst] in *.
+    pose proof (inv_list_tr sc (init_state sc c0)) as T1.
+    destruct (inv_list sc (init_state sc c0)) as [s1 r1]. cbn [fst] in *.
     destruct r1 as [st|]; [|discriminate].
     set (locals0 := if o_destroy (sc_opts sc) then [] else sc_local sc) in *.
     match goal with |- context [fetch_all sc s1 ?c] => set (cand := c) in * end.
@@ -623,12 +626,13 @@ Section RunJ.
     assert (HD : forall c, In c pobjs -> ~ In (c_id c) (map l_id locals0)).
     { intros c Hc. destruct (FC c Hc) as [X _]. unfold cand in X. apply (proj1 (sortn_In _ _)) in X.
       apply (proj1 (diffn_In _ _ _)) in X. exact (proj2 X). }
-    set (pl := build_plan sc locals0 pobjs) in *.
+    set (known := r_known s2) in *.
+    set (pl := build_plan sc known locals0 pobjs) in *.
     assert (DISJ : forall j, In j (apply_ids pl) -> ~ In j (prune_ids pl)).
-    { intros j Ha Hp. apply (bp_disj sc locals0 pobjs HL HP HD j Ha). unfold prune_ids in Hp.
+    { intros j Ha Hp. apply (bp_disj sc known locals0 pobjs HL HP HD j Ha). unfold prune_ids in Hp.
       apply in_map_iff in Hp. destruct Hp as [q [<- Hq]]. apply in_map. apply bp_prune_sub. exact Hq. }
-    pose proof (twf_tasks_of sc locals0 pobjs DISJ) as TW. fold pl in TW.
-    destruct (tasks_todo sc locals0 pobjs HL HP HD) as [TD _]. fold pl in TD.
+    pose proof (twf_tasks_of sc known locals0 pobjs DISJ) as TW. fold pl in TW.
+    destruct (tasks_todo sc known locals0 pobjs HL HP HD) as [TD _]. fold pl in TD.
     pose proof (register_facts sc pl s2) as [_ [T3 _]].
     pose proof (inv_list_tr sc (register sc pl s2)) as T4.
     destruct (inv_list sc (register sc pl s2)) as [s4 r4]. cbn [fst] in *.
@@ -724,10 +728,10 @@ Qed.
 Section Blocked.
   Variable sc : scenario.
 
-  Lemma bp_graph_vertices locals pobjs :
-    map fst (pl_graph (build_plan sc locals pobjs)) = map p_id (applyA locals ++ pruneA pobjs).
+  Lemma bp_graph_vertices known locals pobjs :
+    map fst (pl_graph (build_plan sc known locals pobjs)) = map p_id (applyA sc known locals ++ pruneA pobjs).
   Proof.
-    unfold build_plan. cbv zeta. fold (finv locals). fold (applyA locals). fold (pruneA pobjs).
+    unfold build_plan. cbv zeta. fold (finv sc known locals). fold (applyA sc known locals). fold (pruneA pobjs).
     destruct (kahn _ _ _) as [layers cyc]. cbn [pl_graph]. rewrite !map_map. reflexivity.
   Qed.
 
@@ -736,7 +740,7 @@ Section Blocked.
     run_plan sc c0 = Some (pl, locals) -> NoDup (map fst (pl_graph pl)).
   Proof.
     intros WFL. unfold run_plan. cbv zeta.
-    destruct (inv_list sc (init_state c0)) as [s1 r1]. destruct r1 as [st|]; [|discriminate].
+    destruct (inv_list sc (init_state sc c0)) as [s1 r1]. destruct r1 as [st|]; [|discriminate].
     set (locals0 := if o_destroy (sc_opts sc) then [] else sc_local sc) in *.
     match goal with |- context [fetch_all sc s1 ?c] => set (cand := c) in * end.
     pose proof (fetch_all_cl sc cand s1) as [_ [_ FC]]. pose proof (fetch_all_NoDup sc cand s1) as FN.
